@@ -77,7 +77,10 @@ StepEmit(e) ==
                  atoms |-> (IF e.secret THEN {PrivKey(e.node)} ELSE {}) \cup (IF e.sens THEN {DealShare(e.node, 0, 0)} ELSE {})]
          A2 == IF ~EmissionClean(obs) THEN {Alarm("NoSecretEmitted", e, e.key, FirstHit(e))} ELSE {}
          A3 == IF EmissionClean(obs) /\ ~EmissionAllowed(obs) THEN {Alarm("OnlyPublicOrEncrypted", e, e.key, FirstHit(e))} ELSE {}
-     IN alarms' = alarms \cup A1 \cup A2 \cup A3
+         \* positive control of the deal-share scan: a justification publishes the plain sub-share by design
+         A4 == IF e.key = "dkg.bcast/Justification" /\ ~e.err /\ ~e.sens
+                 THEN {Alarm("ScannerBlind", e, e.key, "the scan does not find the deal share a justification publishes")} ELSE {}
+     IN alarms' = alarms \cup A1 \cup A2 \cup A3 \cup A4
   /\ seen' = seen \cup {e.key}
   /\ UNCHANGED <<scen, cls, um, F, fseen>>
 
